@@ -6,6 +6,8 @@ package presign
 // Output gate (C01): the online-signing session's result is produced only for a signature that the textbook
 // ECDSA equation accepts for exactly this session's public key and message.
 //@ func (*sign2).Finalize
+// (C04, C05) the round handed back carries the SAME session helper (so its FinalRoundNumber(), SelfID(), ... are those of this round)
+//@   ensures[C04,C05] result1 == nil ==> ((typeis(result0, *round.Output) ==> result0.(*round.Output).Helper == old(r.Helper)) && (typeis(result0, *round.Abort) ==> result0.(*round.Abort).Helper == old(r.Helper)))
 // (C04, C05) the round handed to the handler is one the session announced: its number is within the final round
 // number, so the handler holds a queue for it and waits for every party before finalizing it
 //@   ensures[C04,C05] result1 == nil ==> result0.Number() <= old(r.Helper.info.FinalRoundNumber)
@@ -154,6 +156,8 @@ package presign
 // through) nothing panics; sampled masks stay inside Paillier's plaintext range.
 //@ pred psall(r *presign1) := forall(j, party.ID, inslice(r.Helper.partyIDs, j) ==> psparty(r, j)) && each(r.Helper.otherPartyIDs, x, psparty(r, x)) && psparty(r, r.Helper.info.SelfID) && inslice(r.Helper.partyIDs, r.Helper.info.SelfID) && forall(x, party.ID, inslice(r.Helper.otherPartyIDs, x) ==> inslice(r.Helper.partyIDs, x)) && paillier.skwf(r.SecretPaillier) && r.SecretECDSA != nil && r.SecretElGamal != nil
 //@ func (*presign1).Finalize
+// (C04, C05) the round handed back carries the SAME session helper (so its FinalRoundNumber(), SelfID(), ... are those of this round)
+//@   ensures[C04,C05] result1 == nil ==> ((typeis(result0, *presign2) ==> result0.(*presign2).Helper == old(r.Helper)) && (typeis(result0, *round.Output) ==> result0.(*round.Output).Helper == old(r.Helper)) && (typeis(result0, *round.Abort) ==> result0.(*round.Abort).Helper == old(r.Helper)))
 // (C04, C05) the round handed to the handler is one the session announced: its number is within the final round
 // number, so the handler holds a queue for it and waits for every party before finalizing it
 //@   ensures[C04,C05] result1 == nil ==> result0.Number() <= old(r.Helper.info.FinalRoundNumber)
@@ -168,6 +172,8 @@ package presign
 //@   ensures typeis(result0, *round.Abort) ==> result0.(*round.Abort).Err != nil
 //@   ensures typeis(result0, *round.Output) ==> result0.(*round.Output).Result != nil
 //@ func (*presign2).Finalize
+// (C04, C05) the round handed back carries the SAME session helper (so its FinalRoundNumber(), SelfID(), ... are those of this round)
+//@   ensures[C04,C05] result1 == nil ==> ((typeis(result0, *presign3) ==> result0.(*presign3).Helper == old(r.Helper)) && (typeis(result0, *round.Output) ==> result0.(*round.Output).Helper == old(r.Helper)) && (typeis(result0, *round.Abort) ==> result0.(*round.Abort).Helper == old(r.Helper)))
 // (C04, C05) the round handed to the handler is one the session announced: its number is within the final round
 // number, so the handler holds a queue for it and waits for every party before finalizing it
 //@   ensures[C04,C05] result1 == nil ==> result0.Number() <= old(r.Helper.info.FinalRoundNumber)
@@ -183,6 +189,8 @@ package presign
 //@   ensures typeis(result0, *round.Abort) ==> result0.(*round.Abort).Err != nil
 //@   ensures typeis(result0, *round.Output) ==> result0.(*round.Output).Result != nil
 //@ func (*presign3).Finalize
+// (C04, C05) the round handed back carries the SAME session helper (so its FinalRoundNumber(), SelfID(), ... are those of this round)
+//@   ensures[C04,C05] result1 == nil ==> ((typeis(result0, *presign4) ==> result0.(*presign4).Helper == old(r.Helper)) && (typeis(result0, *round.Output) ==> result0.(*round.Output).Helper == old(r.Helper)) && (typeis(result0, *round.Abort) ==> result0.(*round.Abort).Helper == old(r.Helper)))
 // (C04, C05) the round handed to the handler is one the session announced: its number is within the final round
 // number, so the handler holds a queue for it and waits for every party before finalizing it
 //@   ensures[C04,C05] result1 == nil ==> result0.Number() <= old(r.Helper.info.FinalRoundNumber)
@@ -216,6 +224,8 @@ package presign
 //@   ensures typeis(result0, *round.Abort) ==> result0.(*round.Abort).Err != nil
 //@   ensures typeis(result0, *round.Output) ==> result0.(*round.Output).Result != nil
 //@ func (*presign4).Finalize
+// (C04, C05) the round handed back carries the SAME session helper (so its FinalRoundNumber(), SelfID(), ... are those of this round)
+//@   ensures[C04,C05] result1 == nil ==> ((typeis(result0, *presign5) ==> result0.(*presign5).Helper == old(r.Helper)) && (typeis(result0, *round.Output) ==> result0.(*round.Output).Helper == old(r.Helper)) && (typeis(result0, *round.Abort) ==> result0.(*round.Abort).Helper == old(r.Helper)))
 // (C04, C05) the round handed to the handler is one the session announced: its number is within the final round
 // number, so the handler holds a queue for it and waits for every party before finalizing it
 //@   ensures[C04,C05] result1 == nil ==> result0.Number() <= old(r.Helper.info.FinalRoundNumber)
@@ -230,6 +240,8 @@ package presign
 //@   ensures typeis(result0, *round.Abort) ==> result0.(*round.Abort).Err != nil
 //@   ensures typeis(result0, *round.Output) ==> result0.(*round.Output).Result != nil
 //@ func (*presign5).Finalize
+// (C04, C05) the round handed back carries the SAME session helper (so its FinalRoundNumber(), SelfID(), ... are those of this round)
+//@   ensures[C04,C05] result1 == nil ==> ((typeis(result0, *presign6) ==> result0.(*presign6).Helper == old(r.Helper)) && (typeis(result0, *round.Output) ==> result0.(*round.Output).Helper == old(r.Helper)) && (typeis(result0, *round.Abort) ==> result0.(*round.Abort).Helper == old(r.Helper)))
 // (C04, C05) the round handed to the handler is one the session announced: its number is within the final round
 // number, so the handler holds a queue for it and waits for every party before finalizing it
 //@   ensures[C04,C05] result1 == nil ==> result0.Number() <= old(r.Helper.info.FinalRoundNumber)
@@ -255,6 +267,8 @@ package presign
 //@   ensures result != nil
 //@ pred psopen(r *presign3) := forall(j, party.ID, inslice(r.Helper.otherPartyIDs, j) ==> (r.DeltaCiphertext[j] != nil && r.ChiCiphertext[j] != nil && paillier.ctvalid(r.SecretPaillier.PublicKey, r.DeltaCiphertext[j][r.Helper.info.SelfID]) && paillier.ctvalid(r.SecretPaillier.PublicKey, r.ChiCiphertext[j][r.Helper.info.SelfID]))) && paillier.ctvalid(r.SecretPaillier.PublicKey, r.K[r.Helper.info.SelfID])
 //@ func (*presign6).Finalize
+// (C04, C05) the round handed back carries the SAME session helper (so its FinalRoundNumber(), SelfID(), ... are those of this round)
+//@   ensures[C04,C05] result1 == nil ==> ((typeis(result0, *abort1) ==> result0.(*abort1).Helper == old(r.Helper)) && (typeis(result0, *presign7) ==> result0.(*presign7).Helper == old(r.Helper)) && (typeis(result0, *round.Output) ==> result0.(*round.Output).Helper == old(r.Helper)) && (typeis(result0, *round.Abort) ==> result0.(*round.Abort).Helper == old(r.Helper)))
 // (C04, C05) the round handed to the handler is one the session announced: its number is within the final round
 // number, so the handler holds a queue for it and waits for every party before finalizing it
 //@   ensures[C04,C05] result1 == nil ==> result0.Number() <= old(r.Helper.info.FinalRoundNumber)
@@ -274,6 +288,11 @@ package presign
 //@   ensures typeis(result0, *round.Abort) ==> result0.(*round.Abort).Err != nil
 //@   ensures typeis(result0, *round.Output) ==> result0.(*round.Output).Result != nil
 //@ func (*presign7).Finalize
+// (C04, C05) the round handed back carries the SAME session helper (so its FinalRoundNumber(), SelfID(), ... are those of this round)
+//@   ensures[C04,C05] result1 == nil ==> (typeis(result0, *abort2) ==> result0.(*abort2).Helper == old(r.Helper))
+//@   ensures[C04,C05] result1 == nil ==> (typeis(result0, *sign2) ==> result0.(*sign2).Helper == old(r.Helper))
+//@   ensures[C04,C05] result1 == nil ==> (typeis(result0, *round.Output) ==> result0.(*round.Output).Helper == old(r.Helper))
+//@   ensures[C04,C05] result1 == nil ==> (typeis(result0, *round.Abort) ==> result0.(*round.Abort).Helper == old(r.Helper))
 // (C04, C05) the round handed to the handler is one the session announced: its number is within the final round
 // number, so the handler holds a queue for it and waits for every party before finalizing it
 //@   ensures[C04,C05] result1 == nil ==> result0.Number() <= old(r.Helper.info.FinalRoundNumber)
@@ -291,6 +310,10 @@ package presign
 //@   ensures typeis(result0, *round.Abort) ==> result0.(*round.Abort).Err != nil
 //@   ensures typeis(result0, *round.Output) ==> result0.(*round.Output).Result != nil
 //@ func (*sign1).Finalize
+// the online round hands back the output round sign2 (or, failing to send, itself with the error)
+//@   ensures result1 == nil ==> (typeis(result0, *sign2) || typeis(result0, *round.Output) || typeis(result0, *round.Abort))
+// (C04, C05) the round handed back carries the SAME session helper (so its FinalRoundNumber(), SelfID(), ... are those of this round)
+//@   ensures[C04,C05] result1 == nil ==> ((typeis(result0, *sign2) ==> result0.(*sign2).Helper == old(r.Helper)) && (typeis(result0, *round.Output) ==> result0.(*round.Output).Helper == old(r.Helper)) && (typeis(result0, *round.Abort) ==> result0.(*round.Abort).Helper == old(r.Helper)))
 // (C04, C05) the round handed to the handler is one the session announced: its number is within the final round
 // number, so the handler holds a queue for it and waits for every party before finalizing it
 //@   ensures[C04,C05] result1 == nil ==> result0.Number() <= old(r.Helper.info.FinalRoundNumber)
@@ -316,6 +339,8 @@ package presign
 //@   ensures typeis(result0, *round.Abort) ==> result0.(*round.Abort).Err != nil
 //@   ensures typeis(result0, *round.Output) ==> result0.(*round.Output).Result != nil
 //@ func (*abort1).Finalize
+// (C04, C05) the round handed back carries the SAME session helper (so its FinalRoundNumber(), SelfID(), ... are those of this round)
+//@   ensures[C04,C05] result1 == nil ==> ((typeis(result0, *round.Output) ==> result0.(*round.Output).Helper == old(r.Helper)) && (typeis(result0, *round.Abort) ==> result0.(*round.Abort).Helper == old(r.Helper)))
 // (C04, C05) the round handed to the handler is one the session announced: its number is within the final round
 // number, so the handler holds a queue for it and waits for every party before finalizing it
 //@   ensures[C04,C05] result1 == nil ==> result0.Number() <= old(r.Helper.info.FinalRoundNumber)
@@ -339,6 +364,8 @@ package presign
 //@   ensures typeis(result0, *round.Abort) ==> result0.(*round.Abort).Err != nil
 //@   ensures typeis(result0, *round.Output) ==> result0.(*round.Output).Result != nil
 //@ func (*abort2).Finalize
+// (C04, C05) the round handed back carries the SAME session helper (so its FinalRoundNumber(), SelfID(), ... are those of this round)
+//@   ensures[C04,C05] result1 == nil ==> ((typeis(result0, *round.Output) ==> result0.(*round.Output).Helper == old(r.Helper)) && (typeis(result0, *round.Abort) ==> result0.(*round.Abort).Helper == old(r.Helper)))
 // (C04, C05) the round handed to the handler is one the session announced: its number is within the final round
 // number, so the handler holds a queue for it and waits for every party before finalizing it
 //@   ensures[C04,C05] result1 == nil ==> result0.Number() <= old(r.Helper.info.FinalRoundNumber)
